@@ -42,7 +42,8 @@ def cases(tier, seed):
                     "npart": int(rng.integers(3, 13 if picker != "tm" else 7)),
                     "dtype": ("float32", "float64", "uint8", "int16")[int(rng.integers(0, 4))] if picker != "tm" else "float32",
                     "chunking": ("halves", "irregular", "thin", "pencil", "single", "cubes", "through")[int(rng.integers(0, 7))],
-                    "even": bool(rng.random() < 0.5),
+                    "even": bool(rng.random() < 0.5), "offset": float(rng.choice([0.0, 0.0, 5000.0, -20000.0])),
+                    "provider": bool(rng.random() < 0.3),
                     "sched": ("sync", "threads", "shuffle")[int(rng.integers(0, 3))],
                     "iseed": int(rng.integers(0, 2**31)), "cost": 6.0 if picker == "tm" else 3.0,
                     "slab": bool(rng.random() < 0.25), "md_px": float(rng.choice([5.0, 8.0, 10.0]))})
@@ -160,7 +161,22 @@ def run(case):
             ks.append(k)
             gen.render_world(shape, blobs, t, rots[k], dtype=None, out=vol)
         vol = (vol + 0.02 * rng.normal(size=shape)).astype(np.float32)
-        picker = ZNCCTemplateMatcher(tmpl, rotation=Rotation.from_quat(np.stack([r.as_quat() for r in rots])), order=1)
+        # a large grey-level offset (raw counts): the normalised score does not depend on it
+        off_ = float(p.get("offset", 0.0))
+        if off_:
+            vol = (vol * np.float32(40.0) + np.float32(off_)).astype(np.float32)
+            case.count("tm_images_with_offset")
+        tm_arg = tmpl
+        if p.get("provider"):
+            # the template as an ImageProvider; the same matcher first serves another pixel size
+            from acryo import pipe
+
+            tm_arg = pipe.from_array(tmpl, original_scale=scale)
+        picker = ZNCCTemplateMatcher(tm_arg, rotation=Rotation.from_quat(np.stack([r.as_quat() for r in rots])), order=1)
+        if p.get("provider"):
+            other = scale * float(rng.choice([0.5, 2.0]))
+            _ = picker.pick_molecules(vol[:24, :24, :24], other, min_distance=5.0 * other, min_score=0.5)
+            case.count("tm_matcher_reused_at_other_scale")
         kw = {"min_distance": md_px * scale, "min_score": 0.5}
         tol = TOLERANCES["tm_px"]
     if len(truth) < 2:
